@@ -40,6 +40,7 @@ func main() {
 		{"KmpGen.v", genKmp},
 		{"SnapSmallGen.v", genSnapSmall},
 		{"KmpDedupGen.v", genKmpDedup},
+		{"CleanupRingGen.v", genCleanupRing},
 		{"TmsData.v", genTmsData},
 		{"CliGen.v", genCli},
 	}
